@@ -1020,7 +1020,7 @@ func runC19(c *Ctx) {
 			typed = append(typed, f)
 		}
 	}
-	c.Rep.Rule = "sets of <=2 (quick) / <=3 (thorough) workloads over 2 namespaces, selectors from {nil->template labels, empty, one label, two labels, In, NotIn, Exists}, for replicaset/deployment/daemonset/statefulset/job/service/replicationcontroller PodsFilter x all pods over 2 namespaces x all label maps; ingress ServicesFilter over sets of ingresses (default backend, rule paths, empty names) x services of 3 namespaces; Node/Involved/SelectorMatch filters x pods, services, events, nodes, secrets. Plus 280 (7000) random typed filters (sets of up to three random services / replication controllers / workloads / ingresses with random selectors, templates, namespaces incl. none, backends; node, involved-object, selector-match filters with empty arguments) over 160 random objects. Real Accept vs extracted model and vs the ownership predicate written directly. Non-trivial = filter accepting some but not all candidates. Ingresses and services in namespaces that are prefixes of one another / continue with '-'."
+	c.Rep.Rule = "sets of <=2 (quick) / <=3 (thorough) workloads over 2 namespaces, selectors from {nil->template labels, empty, one label, two labels, In, NotIn, Exists}, for replicaset/deployment/daemonset/statefulset/job/service/replicationcontroller PodsFilter x all pods over 2 namespaces x all label maps; ingress ServicesFilter over sets of ingresses (default backend, rule paths, empty names) x services of 3 namespaces; Node/Involved/SelectorMatch filters x pods, services, events, nodes, secrets. Plus 280 (7000) random typed filters (sets of up to three random services / replication controllers / workloads / ingresses with random selectors, templates, namespaces incl. none, backends; node, involved-object, selector-match filters with empty arguments) over 160 random objects. Real Accept vs extracted model and vs the ownership predicate written directly. Non-trivial = filter accepting some but not all candidates. Ingresses and services in namespaces that are prefixes of one another / continue with '-'. Involved-object filters over kinds that differ only in the case of a letter; node filters over dotted names that share their first label and a short name beside them."
 	c.Sample(map[string]interface{}{"filter": terms[len(terms)/2].Enc().String(), "pod": pods[5].Enc().String()})
 	acceptMatrix(c, terms, pods)
 	acceptMatrix(c, iterms, svcs)
